@@ -122,7 +122,22 @@ func (c c17) Generate(seed uint64, tier string, idx int) *core.Plan {
 	for _, o := range order {
 		p.Steps = append(p.Steps, core.Step{Op: "order", A: []int64{int64(o)}})
 	}
-	if cold {
+	sweep := !cold && (idx/7)%4 == 1 && p.Cfg["disjoint"] == 0
+	if sweep {
+		// sweep profile: two tasks, one call each, the first-running task preempted at yield j,
+		// where j walks through 0..319 with the plan index — every yield point of the first call
+		// gets its turn (PCT-style coverage instead of a random draw)
+		p.Steps = p.Steps[:0]
+		nt = 2
+		for t := 0; t < 2; t++ {
+			p.Steps = append(p.Steps, core.Step{Op: "call", A: []int64{int64(t), int64(r.Intn(len(objOps[kind]))), int64(r.Intn(1 << 30))}})
+		}
+		order = r.Perm(2)
+		for _, o := range order {
+			p.Steps = append(p.Steps, core.Step{Op: "order", A: []int64{int64(o)}})
+		}
+		p.Steps = append(p.Steps, core.Step{Op: "preempt", A: []int64{int64(order[0]), int64((idx / 28) % 320), int64(order[1])}})
+	} else if cold {
 		p.Steps = append(p.Steps, core.Step{Op: "preempt", A: []int64{int64(order[0]), int64(r.Intn(700)), int64(order[1])}})
 		if r.Bool(50) {
 			p.Steps = append(p.Steps, core.Step{Op: "preempt", A: []int64{int64(order[1]), int64(r.Intn(700)), int64(order[0])}})
